@@ -122,6 +122,12 @@ def run_case(case):
         if diff is not None:
             return Violation('c01:%s+last-ops:%s' % (eng, diff[0]), {'engine': eng, 'last_ops_length': ring_len, **diff[1]}, cl)
     cl.append('last-ops list of %d requested' % ring_len)
+    # the native engine's other storage path: everything page-backed (no flat window)
+    dev = engines.make_rec_device(case['input_bits'])
+    o = engines.run_engine(path, 'native', dev, knobs={'no_flat': True}, last_len=ring_len if ref.ops % 3 == 0 else None)
+    diff = compare(case, ref, o, 'native')
+    if diff is not None:
+        return Violation('c01:native+paged:%s' % diff[0], {'engine': 'native', 'storage': o.storage, **diff[1]}, cl)
     # whole-byte input through the library's FixedIO on one engine
     if len(case['input_bits']) % 8 == 0:
         from flipjump.interpreter.io_devices.FixedIO import FixedIO
